@@ -45,7 +45,11 @@ g_CFGSX == { Cfg(pw, 3, 2, 3, [f1 |-> F("t1", 1, 6, 2, 4), f2 |-> F("t1", 5, 6, 
            { Cfg(pw, 3, 2, 3, [f1 |-> F("t2", 1, 6, 1, 0), f2 |-> F("t1", 2, 7, 2, 0), f3 |-> ABSENT]) : pw \in {P(1,1,2), P(2,2,5)} } \cup
            { Cfg(pw, 2, 2, 3, [f1 |-> F("t2", 2, 5, 1, 0), f2 |-> F("t1", 1, 4, 2, 0), f3 |-> ABSENT]) : pw \in {P(1,1,2), P(1,2,3)} } \cup
            { Cfg(pw, 2, 2, 3, [f1 |-> F("t1", 1, 4, 2, 3), f2 |-> F("t1", 4, 4, 3, 0), f3 |-> ABSENT]) : pw \in {P(1,1,2), P(1,1,1)} }
-g_CFGS == {WithEp(WithRs(c, rs), ep) : c \in g_CFGS0 \cup g_CFGSX, rs \in g_RS, ep \in {0, 3}}
+\* partial validator-set change some blocks after a restart: 2-block dogfood epoch (ends at 3, 5, 7), nobody feeds the
+\* staking asset's token t1 (so only delegations change powers, one validator at a time), feeder 1 -> t2 opens at 5
+g_CFGSV == { Cfg(pw, 2, 2, 3, [f1 |-> F("t2", 5, 4, 1, 0), f2 |-> F("t1", 1000000, 10, 2, 0), f3 |-> ABSENT]) : pw \in {P(1,1,1), P(1,3,3), P(1,1,2)} }
+g_CFGS == {WithEp(WithRs(c, rs), ep) : c \in g_CFGS0 \cup g_CFGSX, rs \in g_RS, ep \in {0, 3}} \cup
+          {WithEp(WithRs(c, rs), 2) : c \in g_CFGSV, rs \in {{2}, {3}, {4}, {3, 8}, {4, 8}}}
 \* feeders a params update may add: resume t1 (after feeder 1 was stopped), a second token's first feeder
 g_ADDS == { [tok |-> "t1", start |-> 5, iv |-> 4], [tok |-> "t1", start |-> 6, iv |-> 6], [tok |-> "t2", start |-> 4, iv |-> 6] }
 t_ADDS == { [tok |-> "t1", start |-> 4, iv |-> 4] }
